@@ -1,7 +1,7 @@
 """Per-property configuration of ./check (tag names, non-triviality rule, assumptions)."""
 
 NOT_APPLICABLE = {}
-HOOK_COMMITS = ["7a2232a", "b563649"]
+HOOK_COMMITS = ["7a2232a", "b563649", "61d73aa"]
 
 PROPS = {
     "C10": {
